@@ -468,12 +468,12 @@ impl V {
                 }
                 for a in &field.args {
                     if !ifield.args.iter().any(|x| x.name == a.name) {
+                        // "any additional argument must not be required": required = non-null type and no
+                        // default value (spec 5.4.2.1 Required Arguments; graphql-js isRequiredArgument,
+                        // which the property names as the oracle). A non-null argument WITH a default is
+                        // optional, so it may be added.
                         if is_required(a) {
                             self.err("T.implExtraRequiredArg");
-                        } else if a.ty.is_non_null() {
-                            // "must not be required, e.g. must not be of a non-nullable type":
-                            // the text and graphql-js (non-null without default) may differ
-                            self.gray("additional non-null argument with a default value on an implementing field");
                         }
                     }
                 }
